@@ -1394,6 +1394,7 @@ SELFTEST = [
     ("pycma without randn", "import numpy as np\nclass P:\n    def __init__(self, seed=None):\n        self._opts = {}\n        self._opts['seed'] = np.nan\n    def reset(self, x0):\n        import cma\n        self._es = cma.CMAEvolutionStrategy(x0, 1.0, self._opts)\n", 1, ["KThirdParty"]),
     ("reseeding in __setstate__", "import numpy as np\nclass A:\n    def __init__(self, seed=None):\n        self._rng = np.random.default_rng(seed)\n    def __setstate__(self, s):\n        self.__dict__.update(s)\n        self._rng = np.random.default_rng()\n    def f(self):\n        return self._rng.random()\n", 2, ["KDefaultRng", "use"]),
     ("os.urandom", "import os\ndef f():\n    return os.urandom(4)\n", 1, ["KUnknown"]),
+    ("wall clock", "import time\nclass A:\n    def f(self):\n        return time.perf_counter() > 3.0\n", 1, ["KUnknown"]),
     ("salted hash", "import numpy as np\nclass A:\n    def __init__(self, seed=None):\n        self._rng = np.random.default_rng(seed)\n        self._key = hash('opt') & 0xFFFFFFFF\n    def f(self):\n        return self._rng.random()\n", 1, ["KUnknown"]),
     ("scipy.stats rvs", "import scipy.stats as st\ndef f():\n    return st.norm.rvs(size=3)\n", 1, ["KUnknown"]),
 ]
